@@ -1,2 +1,2 @@
 (* C27 — all proofs. *)
-From SwayV Require Export C27.NumProofs C27.DivProofs.
+From SwayV Require Export C27.NumProofs C27.DivProofs C27.CollProofs.
